@@ -23,7 +23,7 @@ type C05Restarts struct{}
 
 func (e *C05Restarts) Name() string { return "fn.c05-restarts" }
 func (e *C05Restarts) Rule() string {
-	return "auto validation, duration 10m elapsed by 1m, noRestartsDuration 5m; one or two canary pods with 1-3 containers (incl. an init container) whose restart counts {0,1,2} and last terminations {30s .. 9m ago} are drawn independently (counts stay at or below autoPause.maxRestarts); one real replica-set sync in the canary role, then one real ExtendedDaemonSet reconcile: the active replica set may switch only if the latest termination of any container of any canary pod is more than 5m old; non-trivial = distinct (container layout, restart counts, which container restarted last)"
+	return "auto validation, duration 10m elapsed by 1m, noRestartsDuration 5m; one or two canary pods with 1-3 containers (incl. an init container) whose restart counts {0,1,2} and last terminations {30s .. 9m ago} are drawn independently (counts stay at or below autoPause.maxRestarts); one real replica-set sync in the canary role, then one real ExtendedDaemonSet reconcile: the active replica set may switch only if the latest termination of any container of any canary pod is more than 5m old - also one sync period after the user deleted the pod that restarted last; non-trivial = distinct (container layout, restart counts, which container restarted last)"
 }
 func (e *C05Restarts) Cases(tier string, _ int64) int {
 	if tier == "thorough" {
@@ -68,6 +68,8 @@ func (e *C05Restarts) one(ctx *core.Ctx) {
 	}
 	tr := true
 	var latest time.Time
+	latestPod := ""
+	podLatests := map[string]time.Time{}
 	layout := ""
 	lessRestartedLast := false
 	for i := 0; i < 2; i++ {
@@ -113,7 +115,9 @@ func (e *C05Restarts) one(ctx *core.Ctx) {
 		}
 		if podLatest.After(latest) {
 			latest = podLatest
+			latestPod = p.Name
 		}
+		podLatests[p.Name] = podLatest
 		s.Inject(p)
 	}
 	// the active replica set's pods on the other nodes
@@ -153,6 +157,37 @@ func (e *C05Restarts) one(ctx *core.Ctx) {
 	}
 	if switched && recent {
 		ctx.Violation("C05", "C05.promotion", merge2(attrs, "cause", "a-canary-pod-restarted-within-noRestartsDuration"), desc)
+	}
+	// second phase: the user deletes the canary pod that restarted last (the other one restarted longer ago or not at
+	// all). The restart happened all the same: one replica-set sync period later the promotion rule still has to
+	// count noRestartsDuration from it.
+	if switched || !recent || latestPod == "" {
+		return
+	}
+	other := false
+	for n, t := range podLatests {
+		if n != latestPod && t.Before(latest) {
+			other = true
+		}
+	}
+	if !other {
+		return
+	}
+	s.Remove(simapi.KindPod, "ns", latestPod)
+	simapi.Advance(11 * time.Second)
+	now2 := now.Add(11 * time.Second)
+	ctx.Count("C05.restart-points-after-deleting-the-pod-that-restarted-last")
+	if o := ctl.Reconcile("ers", "ns", "foo-b", "fn"); o.Panic != "" {
+		ctx.Violation("C05", "C05.no-panic", merge2(attrs, "panic", o.Panic), desc)
+		return
+	}
+	if o := ctl.Reconcile("eds", "ns", "foo", "fn"); o.Panic != "" {
+		ctx.Violation("C05", "C05.no-panic", merge2(attrs, "panic", o.Panic), desc)
+		return
+	}
+	if after2 := kit.GetEDS(s, "ns", "foo"); after2.Status.ActiveReplicaSet == "foo-b" && now2.Sub(latest) < 5*time.Minute {
+		desc["deleted"] = latestPod
+		ctx.Violation("C05", "C05.promotion", merge2(attrs, "cause", "the-canary-pod-that-restarted-last-was-deleted"), desc)
 	}
 }
 
